@@ -76,6 +76,12 @@ def diagram_case(args):
     for n, nd in m.nodes.items():
         if nd.group: groups.setdefault(nd.group, set()).add(n)
     try:
+        # ---------------- the default rendering before anything else was drawn (compared with the same call at the end)
+        conf_def0 = copy.deepcopy(D.get_conf())
+        def node_attrs(j_):
+            nd_, _, _, _ = parse(j_)
+            return {n_["name"]: {k_: n_.get(k_) for k_ in ("label", "fillcolor", "fontcolor", "shape", "style", "penwidth", "color")} for n_ in nd_.values()}
+        first_default = node_attrs(load(D.make_diag))
         # ---------------- make_diag, grouping on, with a configuration exercising default -> kind -> name precedence
         conf = D.get_conf()
         kinds = sorted({gen.cls_name(nd.kind) for nd in m.nodes.values()})
@@ -153,6 +159,12 @@ def diagram_case(args):
                 mv = re.search(r"([-+0-9.e]+[pnumkM]?)W", lg)
                 lv = parse_label_value(mv.group(0)) if mv else None
                 if lv is None or not (abs(lv - mx) <= 0.006 * mx + 1e-15): F("hdiag.legend", "legend %r does not show the maximum loss %g W" % (lg, mx))
+        # ---------------- after everything above (heat diagrams with and without a configuration): the default rendering is what it was
+        if D.get_conf() != conf_def0: F("diag.defaults", "the module's default configuration changed while diagrams were drawn")
+        again = node_attrs(load(D.make_diag))
+        if again != first_default:
+            d_ = [(n_, first_default.get(n_), again.get(n_)) for n_ in first_default if first_default.get(n_) != again.get(n_)][:2]
+            F("diag.defaults", "make_diag with the default configuration renders differently after a heat diagram was drawn: %s" % (d_,))
     except Exception as e:
         F("diag.exception", "%s: %s" % (type(e).__name__, str(e)[:120]))
     finally:
